@@ -300,7 +300,7 @@ theorem gen_call_order :
     Gen.Pki2.verifySignatureCalls =
       ["FindCertificate", "verifyClientChain", "IsTypeData", "EContentValue", "verifySignerInfo"] ∧
     Gen.Pki2.verifyClientChainCalls =
-      ["ExtractIA", "SignedTRC", "IsZero", "Contains", "VerifyChain", "After", "GracePeriodEnd",
+      ["ExtractIA", "SignedTRC", "IsZero", "Contains", "VerifyChain", "GracePeriodEnd",
        "verifyWithGraceTRC"] ∧
     Gen.Pki2.verifyWithGraceCalls = ["SignedTRC", "IsZero", "Contains", "VerifyChain"] ∧
     Gen.Pki2.processCSRCalls = ["ExtractIA", "ExtractIA", "Equal", "CheckSignature"] ∧
